@@ -9,15 +9,753 @@ Open Scope N_scope.
 
 Ltac frs := intros; reflexivity.
 
-(* ------------------------------------------------------------------------------------------ *)
-(* commit never decreases                                                                     *)
-
-Lemma commit_loop_ge f ci nx s : nx <= snd (commit_loop f ci nx s).
+Lemma andthen_assoc f g h s : ((f ;; g) ;; h) s = (f ;; (g ;; h)) s.
 Proof.
-  revert ci nx s. induction f as [|f IH]; intros ci nx s; cbn [commit_loop]; [cbn; lia|].
+  rewrite !andthen_eq. destruct (ok (f s)) eqn:E; [reflexivity|]. now rewrite E.
+Qed.
+
+(* ------------------------------------------------------------------------------------------ *)
+(* the leader's commit loop                                                                   *)
+
+Definition match_count (ci : N) (n : node) : N :=
+  1 + N.of_nat (length (filter (fun x => match aget x (match_idx n) with
+                                         | Some m => ci <=? m | None => false end) (others n))).
+
+Definition entry_at (l : list entry) (i : N) : option entry :=
+  match get_entries l (Some i) (Some 1) None with en :: _ => Some en | [] => None end.
+
+(* the entry stored at index j carries the node's current term *)
+Definition own_term_at (n : node) (j : N) : bool :=
+  match entry_at (log n) j with Some en => eterm en =? term n | None => false end.
+
+Definition slot_missing (n : node) : bool :=
+  existsb (fun x => match aget x (match_idx n) with None => true | Some _ => false end) (others n).
+
+Lemma commit_loop_ge f ci nx s : nx <= ci -> nx <= snd (commit_loop f ci nx s).
+Proof.
+  revert ci nx s. induction f as [|f IH]; intros ci nx s Hle; cbn [commit_loop]; [cbn; lia|].
   destruct (ci <? last_idx (log (nd s))); [|cbn; lia].
   destruct (existsb _ _); [cbn; lia|].
   destruct (negb _); [cbn; lia|].
+  destruct (get_entries _ _ _ _) as [|en r]; [apply IH; lia|].
+  destruct (eterm en =? term (nd s)); [|apply IH; lia].
+  specialize (IH (ci + 1) (ci + 1) s). lia.
+Qed.
+
+Lemma exc_commit_loop f ci nx s :
+  exc (fst (commit_loop f ci nx s)) = exc s \/ exc (fst (commit_loop f ci nx s)) = EXC_KEY.
+Proof.
+  revert ci nx s. induction f as [|f IH]; intros ci nx s; cbn [commit_loop]; [now left|].
+  destruct (ci <? last_idx (log (nd s))); [|now left].
+  destruct (existsb _ _); [now right|].
+  destruct (negb _); [now left|].
   destruct (get_entries _ _ _ _) as [|en r]; [apply IH|].
-  destruct (eterm en =? term (nd s)); [|apply IH].
-Abort.
+  destruct (eterm en =? term (nd s)); apply IH.
+Qed.
+
+(* full specification of the loop: [stop] is the last index examined with a majority *)
+Lemma commit_loop_spec f ci nx s :
+  let n := nd s in
+  let nc := snd (commit_loop f ci nx s) in
+  exists stop,
+    ci <= stop /\ (stop <= last_idx (log n) \/ stop = ci) /\
+    (forall j, ci < j <= stop -> majority (match_count j n) n = true) /\
+    ((nc = nx /\ forall j, ci < j <= stop -> own_term_at n j = false) \/
+     (ci < nc <= stop /\ own_term_at n nc = true /\ forall j, nc < j <= stop -> own_term_at n j = false)) /\
+    ((N.to_nat (last_idx (log n) - ci) < f)%nat -> slot_missing n = false ->
+       last_idx (log n) <= stop \/ majority (match_count (stop + 1) n) n = false).
+Proof.
+  cbv zeta. revert ci nx. induction f as [|f IH]; intros ci nx; cbn [commit_loop].
+  - exists ci. cbn [snd]. split; [lia|]. split; [lia|]. split; [intros; lia|].
+    split; [left; split; [reflexivity|intros; lia]|]. intros; lia.
+  - destruct (ci <? last_idx (log (nd s))) eqn:E1.
+    2:{ exists ci. cbn [snd]. apply N.ltb_ge in E1. split; [lia|]. split; [lia|]. split; [intros; lia|].
+        split; [left; split; [reflexivity|intros; lia]|]. intros _ _. left. lia. }
+    apply N.ltb_lt in E1.
+    fold (slot_missing (nd s)). destruct (slot_missing (nd s)) eqn:E2.
+    { exists ci. cbn [snd]. split; [lia|]. split; [lia|]. split; [intros; lia|].
+      split; [left; split; [reflexivity|intros; lia]|].
+      intros _ Hf. discriminate Hf. }
+    fold (match_count (ci + 1) (nd s)).
+    destruct (majority (match_count (ci + 1) (nd s)) (nd s)) eqn:E3; cbn [negb].
+    2:{ exists ci. cbn [snd]. split; [lia|]. split; [lia|]. split; [intros; lia|].
+        split; [left; split; [reflexivity|intros; lia]|].
+        intros _ _. now right. }
+    assert (Hown : own_term_at (nd s) (ci + 1) =
+                   match get_entries (log (nd s)) (Some (ci + 1)) (Some 1) None with
+                   | [] => false | en :: _ => eterm en =? term (nd s) end).
+    { unfold own_term_at, entry_at. destruct (get_entries _ _ _ _); reflexivity. }
+    assert (Hstep : forall nx',
+      (nx' = nx /\ own_term_at (nd s) (ci + 1) = false \/ nx' = ci + 1 /\ own_term_at (nd s) (ci + 1) = true) ->
+      let nc := snd (commit_loop f (ci + 1) nx' s) in
+      exists stop,
+        ci <= stop /\ (stop <= last_idx (log (nd s)) \/ stop = ci) /\
+        (forall j, ci < j <= stop -> majority (match_count j (nd s)) (nd s) = true) /\
+        ((nc = nx /\ forall j, ci < j <= stop -> own_term_at (nd s) j = false) \/
+         (ci < nc <= stop /\ own_term_at (nd s) nc = true /\
+          forall j, nc < j <= stop -> own_term_at (nd s) j = false)) /\
+        ((N.to_nat (last_idx (log (nd s)) - ci) < Datatypes.S f)%nat -> slot_missing (nd s) = false ->
+           last_idx (log (nd s)) <= stop \/
+           majority (match_count (stop + 1) (nd s)) (nd s) = false)).
+    { intros nx' Hnx'. cbv zeta.
+      destruct (IH (ci + 1) nx') as (stop & S1 & S2 & S3 & S4 & S5).
+      exists stop. split; [lia|]. split; [lia|]. split.
+      { intros j Hj. destruct (N.eq_dec j (ci + 1)) as [->|Hne]; [exact E3|apply S3; lia]. }
+      split.
+      { destruct S4 as [[Ha Hb]|(Ha & Hb & Hc)].
+        - destruct Hnx' as [[-> Ho]|[-> Ho]].
+          + left. split; [exact Ha|]. intros j Hj.
+            destruct (N.eq_dec j (ci + 1)) as [->|Hne]; [exact Ho|apply Hb; lia].
+          + right. rewrite Ha. split; [lia|]. split; [exact Ho|]. intros j Hj. apply Hb. lia.
+        - right. split; [lia|]. split; [exact Hb|exact Hc]. }
+      intros Hf Hm. apply S5; [lia|reflexivity]. }
+    rewrite E2 in Hstep.
+    destruct (get_entries (log (nd s)) (Some (ci + 1)) (Some 1) None) as [|en r].
+    + apply Hstep. left. now split.
+    + destruct (eterm en =? term (nd s)); apply Hstep; [right|left]; now split.
+Qed.
+
+Lemma tick_leader_commit e s :
+  let n := nd s in
+  commit (nd (tick_leader e s)) = commit n \/
+  (role n = LEADER /\
+   commit (nd (tick_leader e s)) =
+     snd (commit_loop (Datatypes.S (N.to_nat (last_idx (log n) - commit n))) (commit n) (commit n) s)).
+Proof.
+  cbv zeta. unfold tick_leader. destruct (role (nd s) =? LEADER) eqn:Er; [|now left].
+  apply N.eqb_eq in Er.
+  match goal with |- context [commit_loop ?f ?a ?b s] =>
+    pose proof (nd_commit_loop f a b s) as G; destruct (commit_loop f a b s) as [s1 nc] end.
+  cbn [fst snd] in *.
+  destruct (ok s1); [|left; now rewrite G].
+  right. split; [exact Er|].
+  set (s2 := if commit (nd s1) =? nc then s1 else upd (fun n => set_commit_meta (n <| commit := nc |>)) s1).
+  assert (E2 : commit (nd s2) = nc).
+  { subst s2. destruct (commit (nd s1) =? nc) eqn:E; [now apply N.eqb_eq in E|reflexivity]. }
+  clearbody s2.
+  destruct (existsb _ _); [exact E2|].
+  destruct (negb _); [|exact E2].
+  cbn. rewrite (fr_set_role commit) by frs. exact E2.
+Qed.
+
+(* C04_leader_commit_rule *)
+Theorem leader_commit_rule e s :
+  let n := nd s in
+  let nc := commit (nd (tick_leader e s)) in
+  nc = commit n \/
+  (role n = LEADER /\ commit n < nc <= last_idx (log n) /\
+   own_term_at n nc = true /\
+   majority (match_count nc n) n = true /\
+   (forall j, commit n < j <= nc -> majority (match_count j n) n = true) /\
+   exists stop, nc <= stop <= last_idx (log n) /\
+     (forall j, nc < j <= stop -> majority (match_count j n) n = true /\ own_term_at n j = false) /\
+     (stop = last_idx (log n) \/ slot_missing n = true \/ majority (match_count (stop + 1) n) n = false)).
+Proof.
+  cbv zeta. destruct (tick_leader_commit e s) as [H|[Hr H]]; [now left|].
+  rewrite H.
+  destruct (commit_loop_spec (Datatypes.S (N.to_nat (last_idx (log (nd s)) - commit (nd s))))
+              (commit (nd s)) (commit (nd s)) s) as (stop & S1 & S2 & S3 & S4 & S5).
+  cbv zeta in *.
+  destruct S4 as [[Ha Hb]|(Ha & Hb & Hc)]; [now left|].
+  right. split; [exact Hr|]. split; [lia|]. split; [exact Hb|]. split; [apply S3; lia|].
+  split; [intros; apply S3; lia|].
+  exists stop. split; [lia|]. split; [intros j Hj; split; [apply S3; lia|apply Hc; lia]|].
+  destruct (slot_missing (nd s)) eqn:Em; [right; now left|].
+  destruct S5 as [S5|S5]; [lia|reflexivity|left; lia|right; right; exact S5].
+Qed.
+
+(* ------------------------------------------------------------------------------------------ *)
+(* the follower's commit rule                                                                 *)
+
+Lemma ae_commit_spec c v s :
+  commit (nd (ae_commit c v s)) =
+  match v with
+  | Some v => if commit (nd s) <? c then N.max (commit (nd s)) (N.min c v) else commit (nd s)
+  | None => commit (nd s)
+  end.
+Proof.
+  unfold ae_commit, set_commit_meta. destruct v as [v|]; [|reflexivity].
+  destruct (commit (nd s) <? c); reflexivity.
+Qed.
+
+(* index of the last entry the message verifies *)
+Definition ae_last (pidx : N) (es : list entry) : N :=
+  match last_entry es with Some le => eidx le | None => pidx end.
+
+Local Opaque apply_membership.
+(* outcome of ae_regular on [commit] *)
+Lemma ae_regular_commit e from c prev new s :
+  let n := nd s in
+  let n' := nd (ae_regular e from c prev new s) in
+  commit n' = commit n \/
+  (commit n < commit n' /\
+   exists pidx pterm p0 rest,
+     prev = Some (pidx, pterm) /\ get_entries (log n) (Some pidx) None None = p0 :: rest /\
+     eterm p0 = pterm /\ commit n' = N.min c (ae_last pidx new)).
+Proof.
+  cbv zeta. unfold ae_regular.
+  destruct (get_entries (log (nd s)) (option_map fst prev) None None) as [|p0 ptail] eqn:Ep;
+    [left; now rewrite nd_send_next_idx|].
+  destruct prev as [[pidx pterm]|]; [|left; now rewrite nd_send_next_idx].
+  destruct (negb (eterm p0 =? pterm)) eqn:Et; [left; now rewrite nd_send_next_idx|].
+  apply negb_false_iff, N.eqb_eq in Et.
+  match goal with |- context [send_next_idx from (Some ?nx) false true ?s1] =>
+    set (nx0 := nx); set (s1' := s1) end.
+  assert (Ec : commit (nd s1') = commit (nd s)).
+  { subst s1'. destruct (dyn (cf e)); rewrite ?(fr_apply_membership commit) by frs; cbn;
+      destruct (skipn _ ptail); try reflexivity; destruct (skipn _ new); try reflexivity; cbn;
+      rewrite ?(fr_apply_membership commit) by frs; reflexivity. }
+  clearbody s1'. rewrite ae_commit_spec, nd_send_next_idx, Ec.
+  assert (Enx : nx0 - 1 = ae_last pidx new).
+  { subst nx0. unfold ae_last. destruct (last_entry new); lia. }
+  rewrite Enx.
+  destruct (commit (nd s) <? c) eqn:Ecc; [|now left]. apply N.ltb_lt in Ecc.
+  destruct (N.le_gt_cases (N.min c (ae_last pidx new)) (commit (nd s))) as [Hle|Hgt].
+  - left. lia.
+  - right. split; [lia|]. exists pidx, pterm, p0, ptail. cbn in Ep. repeat split; auto. lia.
+Qed.
+
+Local Transparent apply_membership.
+
+(* the snapshot a chunk completes, if any (serializer.setTransmissionData) *)
+Definition recv_snapshot (p : snap_part) (z : ser) : option blob :=
+  match p with
+  | SData b off len first true =>
+    match (if first then Some [] else incoming z) with
+    | Some ps => Some (assemble_snap (ps ++ [(b, off, len)]))
+    | None => None
+    end
+  | _ => None
+  end.
+
+Lemma set_transmission_spec p s :
+  let r := set_transmission p s in
+  (snd r = true ->
+     exists b, recv_snapshot p (sr (nd s)) = Some b /\ stored (sr (nd (fst r))) = Some b).
+Proof.
+  cbv zeta. unfold set_transmission, recv_snapshot. destruct p as [|b off len first last]; cbn; [discriminate|].
+  destruct (if first then Some [] else incoming (sr (nd s))) as [ps|]; cbn; [|discriminate].
+  destruct last; cbn; [|discriminate]. intros _. eexists; split; reflexivity.
+Qed.
+
+Lemma load_dump_clear_log e s sn :
+  stored (sr (nd s)) = Some (Good sn) -> s_ver sn <= self_ver (nd s) ->
+  log (nd (load_dump e true s)) = [s_e0 sn; s_e1 sn].
+Proof.
+  intros Hs Hv. unfold load_dump. rewrite Hs.
+  destruct (self_ver (nd s) <? s_ver sn) eqn:E; [apply N.ltb_lt in E; lia|].
+  cbn [orb].
+  destruct (dyn (cf e)); rewrite ?(fr_update_cluster log) by frs; reflexivity.
+Qed.
+
+Definition ae_msg_info (m : msg) : option (N * N) :=
+  match m with
+  | AE t c _ _ | AEPiece t c _ _ _ _ _ | AESnap t c _ => Some (t, c)
+  | _ => None
+  end.
+
+(* C04_follower_commit_verified *)
+Theorem follower_commit_verified e from m n :
+  let n' := nd (on_message e from m n) in
+  commit n' = commit n \/
+  (commit n < commit n' /\
+   exists t c, ae_msg_info m = Some (t, c) /\ term n <= t /\ commit n' <= c /\
+     match m with
+     | AE _ _ prev es =>
+       exists pidx pterm p0 rest,
+         prev = Some (pidx, pterm) /\ get_entries (log n) (Some pidx) None None = p0 :: rest /\
+         eterm p0 = pterm /\ commit n' = N.min c (ae_last pidx es)
+     | AEPiece _ _ prev lab off len en =>
+       lab <> 1 /\ lab <> 2 /\
+       exists pidx pterm p0 rest en',
+         prev = Some (pidx, pterm) /\ get_entries (log n) (Some pidx) None None = p0 :: rest /\
+         eterm p0 = pterm /\ assemble_entry (recv_t n ++ [(en, off, len)]) = Some en' /\
+         commit n' = N.min c (eidx en')
+     | AESnap _ _ p =>
+       exists sn, recv_snapshot p (sr n) = Some (Good sn) /\ s_ver sn <= self_ver n /\
+         log n' = [s_e0 sn; s_e1 sn] /\ commit n' = N.min c (eidx (s_e1 sn))
+     | _ => False
+     end).
+Proof.
+  cbv zeta.
+  destruct m as [t lli llt|t|t c prev es|t c prev lab off len en|t c p|cm req|req okr a b|t nx r su].
+  - left. apply (fr_msg_request_vote commit); frs.
+  - left. apply (fr_msg_response_vote commit); frs.
+  - (* AE *)
+    unfold on_message. rewrite on_append_entries_eq. cbn [nd start_S].
+    destruct (t <? term n) eqn:Et; [now left|]. apply N.ltb_ge in Et.
+    set (s0 := ae_pre e from t c (start_S e n)).
+    assert (E0 : commit (nd s0) = commit n) by (apply (fr_ae_pre commit); frs).
+    assert (L0 : log (nd s0) = log n) by (apply (fr_ae_pre log); frs).
+    clearbody s0. unfold ae_body_of.
+    destruct (ae_regular_commit e from c prev es s0) as [H|(Hlt & pidx & pterm & p0 & rest & H1 & H2 & H3 & H4)];
+      cbv zeta in *.
+    + left. congruence.
+    + right. rewrite E0 in Hlt. split; [exact Hlt|]. exists t, c. split; [reflexivity|]. split; [exact Et|].
+      split; [lia|]. exists pidx, pterm, p0, rest. rewrite <- L0. auto.
+  - (* AEPiece *)
+    unfold on_message. rewrite on_append_entries_eq. cbn [nd start_S].
+    destruct (t <? term n) eqn:Et; [now left|]. apply N.ltb_ge in Et.
+    set (s0 := ae_pre e from t c (start_S e n)).
+    assert (E0 : commit (nd s0) = commit n) by (apply (fr_ae_pre commit); frs).
+    assert (L0 : log (nd s0) = log n) by (apply (fr_ae_pre log); frs).
+    assert (R0 : recv_t (nd s0) = recv_t n) by (apply (fr_ae_pre recv_t); frs).
+    clearbody s0. unfold ae_body_of.
+    destruct (lab =? 1) eqn:El1; [left; now rewrite nd_send_next_idx|].
+    destruct (recv_t (nd s0)) as [|rt0 rts] eqn:Ert; [left; exact E0|].
+    destruct (lab =? 2) eqn:El2; [left; now rewrite nd_send_next_idx|].
+    cbn [nd upd].
+    destruct (assemble_entry _) as [en'|] eqn:Eas; [|left; exact E0].
+    match goal with |- context [ae_regular e from c prev [en'] ?s1] =>
+      destruct (ae_regular_commit e from c prev [en'] s1)
+        as [H|(Hlt & pidx & pterm & p0 & rest & H1 & H2 & H3 & H4)] end; cbv zeta in *.
+    + left. cbn in H. congruence.
+    + right. cbn in Hlt, H4. rewrite E0 in Hlt. split; [exact Hlt|]. exists t, c.
+      split; [reflexivity|]. split; [exact Et|]. split; [lia|].
+      apply N.eqb_neq in El1, El2. split; [exact El1|]. split; [exact El2|].
+      exists pidx, pterm, p0, rest, en'. rewrite <- L0, <- R0.
+      change (get_entries (log (nd s0)) (Some pidx) None None = p0 :: rest) in H2.
+      change (assemble_entry (recv_t (nd s0) ++ [(en, off, len)]) = Some en') in Eas.
+      rewrite Ert in Eas. auto.
+  - (* AESnap *)
+    unfold on_message. rewrite on_append_entries_eq. cbn [nd start_S].
+    destruct (t <? term n) eqn:Et; [now left|]. apply N.ltb_ge in Et.
+    set (s0 := ae_pre e from t c (start_S e n)).
+    assert (E0 : commit (nd s0) = commit n) by (apply (fr_ae_pre commit); frs).
+    assert (L0 : sr (nd s0) = sr n) by (apply (fr_ae_pre sr); frs).
+    assert (V0 : self_ver (nd s0) = self_ver n) by (apply (fr_ae_pre self_ver); frs).
+    clearbody s0. unfold ae_body_of.
+    pose proof (set_transmission_spec p s0) as Hst. cbv zeta in Hst.
+    pose proof (fr_set_transmission commit) as F1.
+    pose proof (fr_set_transmission self_ver) as F2.
+    specialize (F1 ltac:(frs) p s0). specialize (F2 ltac:(frs) p s0).
+    destruct (set_transmission p s0) as [s2 dn]. cbn [fst snd] in *.
+    destruct (dn && load_dump_ok s2) eqn:Ed.
+    2:{ left. rewrite ae_commit_spec. congruence. }
+    apply andb_prop in Ed. destruct Ed as [-> Hok].
+    destruct (Hst eq_refl) as (b & Hb1 & Hb2).
+    unfold load_dump_ok in Hok. rewrite Hb2 in Hok. destruct b as [sn|]; [|discriminate].
+    apply N.leb_le in Hok.
+    rewrite ae_commit_spec, !nd_send_next_idx.
+    rewrite (fr_load_dump commit) by frs.
+    rewrite (load_dump_clear_log e s2 sn Hb2 Hok).
+    rewrite (fr_ae_commit log), nd_send_next_idx by frs.
+    rewrite (load_dump_clear_log e s2 sn Hb2 Hok).
+    change (last_idx [s_e0 sn; s_e1 sn]) with (eidx (s_e1 sn)).
+    rewrite F1, E0.
+    destruct (commit n <? c) eqn:Ecc; [|now left]. apply N.ltb_lt in Ecc.
+    destruct (N.le_gt_cases (N.min c (eidx (s_e1 sn))) (commit n)) as [Hle|Hgt]; [left; lia|].
+    right. split; [lia|]. exists t, c. split; [reflexivity|]. split; [exact Et|]. split; [lia|].
+    exists sn. rewrite <- L0, <- V0, <- F2. repeat split; auto. lia.
+  - left. apply (fr_msg_apply_cmd commit); frs.
+  - left. apply (fr_msg_apply_resp commit); frs.
+  - left. apply (fr_msg_next_idx commit); frs.
+Qed.
+
+(* ------------------------------------------------------------------------------------------ *)
+(* C04_commit_monotone                                                                        *)
+
+Lemma commit_mono_tick e n : commit n <= commit (nd (on_tick e n)).
+Proof.
+  apply (on_tick_rel (fun a b => commit a <= commit b)); intros; try lia.
+  - rewrite (fr_tick_load commit) by frs. lia.
+  - rewrite (fr_tick_timer commit) by frs. lia.
+  - rewrite (fr_tick_election commit) by frs. lia.
+  - destruct (tick_leader_commit e s) as [H|[_ H]]; cbv zeta in H; rewrite H; [lia|].
+    apply commit_loop_ge. lia.
+  - rewrite (fr_apply_entries commit) by frs. lia.
+  - rewrite (fr_tick_send commit) by frs. lia.
+  - rewrite (fr_tick_ready commit) by frs. lia.
+  - rewrite (fr_check_commands commit) by frs. lia.
+  - rewrite (fr_try_compact commit) by frs. lia.
+Qed.
+
+Lemma commit_mono_msg e from m n : commit n <= commit (nd (on_message e from m n)).
+Proof.
+  destruct (follower_commit_verified e from m n) as [H|[H _]]; cbv zeta in H; lia.
+Qed.
+
+Lemma commit_mono_nstep c MP n n' : nstep c MP n n' -> commit n <= commit n'.
+Proof.
+  intros H. destruct H.
+  - apply commit_mono_tick.
+  - apply commit_mono_msg.
+  - rewrite (fr_on_connected commit) by frs. lia.
+  - rewrite (fr_on_disconnected commit) by frs. lia.
+  - unfold api_submit. rewrite (fr_submit commit) by frs. cbn. lia.
+  - unfold api_admin. destruct (dyn (cf e)); [rewrite (fr_submit commit) by frs|]; cbn; lia.
+  - unfold api_setver. destruct (_ || _); [|rewrite (fr_submit commit) by frs]; cbn; lia.
+  - cbn. lia.
+Qed.
+
+(* one global step: a node that is neither killed nor restarted keeps or raises its commit index *)
+Theorem commit_monotone_step c g ev g' r x n n' :
+  gstep c g ev = Some (g', r) ->
+  is_restart x ev = false -> is_kill x ev = false ->
+  aget x (nodes g) = Some n -> aget x (nodes g') = Some n' ->
+  commit n <= commit n'.
+Proof.
+  intros Hs Hr Hk Hn Hn'.
+  destruct (gstep_nstep c (fun _ => True) g ev g' r x n Hs) as (n2 & Hn2 & [->|Hst]); auto.
+  - intros a b m _. exact I.
+  - rewrite Hn' in Hn2. inversion Hn2. lia.
+  - rewrite Hn' in Hn2. inversion Hn2; subst. eapply commit_mono_nstep; eauto.
+Qed.
+
+(* the node keeps running through the whole trace *)
+Definition runs_through (x : nid) (evs : list event) : Prop :=
+  forall ev, In ev evs -> is_restart x ev = false /\ is_kill x ev = false.
+
+Lemma run_trace_rel (R : node -> node -> Prop) c :
+  (forall a, R a a) -> (forall a b d, R a b -> R b d -> R a d) ->
+  (forall n n', nstep c (fun _ => True) n n' -> R n n') ->
+  forall evs g g' x n,
+    run_trace c g evs = Some g' -> runs_through x evs ->
+    aget x (nodes g) = Some n ->
+    exists n', aget x (nodes g') = Some n' /\ R n n'.
+Proof.
+  intros Rf Tr Hst evs. induction evs as [|ev evs IH]; intros g g' x n Hrun Hthru Hn.
+  - cbn in Hrun. inversion Hrun; subst. eauto.
+  - cbn in Hrun. destruct (gstep c g ev) as [[g1 r]|] eqn:Es; [|discriminate].
+    destruct (Hthru ev (or_introl eq_refl)) as [Hr Hk].
+    destruct (gstep_nstep c (fun _ => True) g ev g1 r x n Es) as (n1 & Hn1 & Hrel); auto.
+    { intros a b m _. exact I. }
+    destruct (IH g1 g' x n1 Hrun) as (n' & Hn' & HR); auto.
+    { intros ev' Hin. apply Hthru. now right. }
+    exists n'. split; [exact Hn'|]. eapply Tr; [|exact HR].
+    destruct Hrel as [->|Hrel]; [apply Rf|apply Hst, Hrel].
+Qed.
+
+(* C04_commit_monotone: all schedules, all configurations *)
+Theorem commit_monotone_trace c evs g g' x n n' :
+  run_trace c g evs = Some g' -> runs_through x evs ->
+  aget x (nodes g) = Some n -> aget x (nodes g') = Some n' ->
+  commit n <= commit n'.
+Proof.
+  intros Hrun Hthru Hn Hn'.
+  destruct (run_trace_rel (fun a b => commit a <= commit b) c) with (evs := evs) (g := g) (g' := g') (x := x) (n := n)
+    as (n2 & Hn2 & Hle); auto; try (intros; lia).
+  - intros a b Hst. eapply commit_mono_nstep; eauto.
+  - rewrite Hn' in Hn2. inversion Hn2; subst. exact Hle.
+Qed.
+
+(* ------------------------------------------------------------------------------------------ *)
+(* C04_applied_monotone_partial                                                               *)
+
+Lemma applied_apply_one en s :
+  applied (nd s) <= applied (nd (fst (apply_one en s))) <= applied (nd s) + 1.
+Proof.
+  unfold apply_one.
+  match goal with |- context [do_apply ?c ?s1] =>
+    pose proof (fr_do_apply applied) as G; specialize (G ltac:(frs) ltac:(frs) ltac:(frs)
+      ltac:(frs) ltac:(frs) ltac:(frs) ltac:(frs) c s1);
+    destruct (do_apply c s1) as [s2 ar] end.
+  cbn [fst] in G. rewrite nd_upd in G. cbn in G.
+  destruct ar; cbn [fst]; rewrite ?nd_upd; cbn [applied set]; try lia;
+    (rewrite (fr_fold applied); [cbn; lia|intros; destruct (_ =? _); now rewrite nd_fire]).
+Qed.
+
+Lemma applied_apply_list es s : applied (nd s) <= applied (nd (apply_list es s)).
+Proof.
+  revert s. induction es as [|en es IH]; intros s; cbn [apply_list]; [lia|].
+  pose proof (applied_apply_one en s) as G. destruct (apply_one en s) as [s1 go]. cbn [fst] in G.
+  destruct go; [specialize (IH s1)|]; lia.
+Qed.
+
+Lemma applied_apply_entries e s : applied (nd s) <= applied (nd (fst (apply_entries e s))).
+Proof.
+  unfold apply_entries. destruct (_ <? _); cbn [fst]; [apply applied_apply_list|lia].
+Qed.
+
+Lemma applied_load_dump e cl s :
+  applied (nd (load_dump e cl s)) = applied (nd s) \/
+  exists sn, stored (sr (nd s)) = Some (Good sn) /\ s_ver sn <= self_ver (nd s) /\
+             applied (nd (load_dump e cl s)) = eidx (s_e1 sn).
+Proof.
+  unfold load_dump. destruct (stored (sr (nd s))) as [[sn|]|] eqn:Es; try now left.
+  destruct (self_ver (nd s) <? s_ver sn) eqn:Ev; [now left|]. apply N.ltb_ge in Ev.
+  right. exists sn. split; [reflexivity|]. split; [exact Ev|].
+  destruct (dyn (cf e)); rewrite ?(fr_update_cluster applied) by frs; reflexivity.
+Qed.
+
+Definition snap_ahead_tick (e : env) (n : node) : Prop :=
+  need_load n && file_dump (cf e) = true ->
+  forall sn, stored (sr n) = Some (Good sn) -> s_ver sn <= self_ver n -> applied n <= eidx (s_e1 sn).
+
+Definition snap_ahead_msg (m : msg) (n : node) : Prop :=
+  match m with
+  | AESnap t c p =>
+    term n <= t ->
+    forall sn, recv_snapshot p (sr n) = Some (Good sn) -> s_ver sn <= self_ver n ->
+               applied n <= eidx (s_e1 sn)
+  | _ => True
+  end.
+
+Lemma applied_mono_tick e n : snap_ahead_tick e n -> applied n <= applied (nd (on_tick e n)).
+Proof.
+  intros Hsa. unfold on_tick. rewrite andthen_eq.
+  assert (H1 : applied n <= applied (nd (tick_load e (start_S e n)))).
+  { unfold tick_load. rewrite nd_upd. cbn [applied set]. cbn [nd start_S].
+    destruct (need_load n && file_dump (cf e)) eqn:En; [|cbn; lia].
+    destruct (applied_load_dump e false (start_S e n)) as [H|(sn & Hs & Hv & H)]; rewrite H; cbn; [lia|].
+    apply (Hsa En sn); assumption. }
+  destruct (ok _); [|exact H1].
+  eapply N.le_trans; [exact H1|]. generalize (tick_load e (start_S e n)). intros s.
+  apply (andthen_rel (fun a b => applied a <= applied b)); [intros; lia| |intros].
+  { rewrite (fr_tick_timer applied) by frs. lia. }
+  apply (andthen_rel (fun a b => applied a <= applied b)); [intros; lia| |intros].
+  { rewrite (fr_tick_election applied) by frs. lia. }
+  apply (andthen_rel (fun a b => applied a <= applied b)); [intros; lia| |intros].
+  { rewrite (fr_tick_leader applied) by frs. lia. }
+  pose proof (applied_apply_entries e s'1) as G. destruct (apply_entries e s'1) as [s1 need]. cbn [fst] in G.
+  destruct (ok s1); [|exact G]. eapply N.le_trans; [exact G|].
+  apply (andthen_rel (fun a b => applied a <= applied b)); [intros; lia| |intros].
+  { rewrite (fr_tick_send applied) by frs. lia. }
+  apply (andthen_rel (fun a b => applied a <= applied b)); [intros; lia| |intros].
+  { rewrite (fr_tick_ready applied) by frs. lia. }
+  apply (andthen_rel (fun a b => applied a <= applied b)); [intros; lia| |intros].
+  { rewrite (fr_check_commands applied) by frs. lia. }
+  rewrite (fr_try_compact applied) by frs. lia.
+Qed.
+
+Lemma applied_mono_msg e from m n :
+  snap_ahead_msg m n -> applied n <= applied (nd (on_message e from m n)).
+Proof.
+  intros Hsa. destruct m as [t lli llt|t|t c prev es|t c prev lab off len en|t c p|cm req|req okr a b|t nx r su].
+  - rewrite (fr_msg_request_vote applied) by frs. lia.
+  - rewrite (fr_msg_response_vote applied) by frs. lia.
+  - unfold on_message. rewrite on_append_entries_eq. cbn [nd start_S].
+    destruct (t <? term n); [cbn; lia|]. unfold ae_body_of.
+    rewrite (fr_ae_regular applied), (fr_ae_pre applied) by frs. cbn; lia.
+  - unfold on_message. rewrite on_append_entries_eq. cbn [nd start_S].
+    destruct (t <? term n); [cbn; lia|]. unfold ae_body_of.
+    assert (E0 : applied (nd (ae_pre e from t c (start_S e n))) = applied n)
+      by (apply (fr_ae_pre applied); frs).
+    destruct (lab =? 1); [rewrite nd_send_next_idx; cbn in *; lia|].
+    destruct (recv_t _); [cbn in *; lia|].
+    destruct (lab =? 2); [rewrite nd_send_next_idx; cbn in *; lia|].
+    destruct (assemble_entry _); [|cbn in *; lia].
+    rewrite (fr_ae_regular applied) by frs. cbn in *; lia.
+  - unfold on_message. rewrite on_append_entries_eq. cbn [nd start_S].
+    destruct (t <? term n) eqn:Et; [cbn; lia|]. apply N.ltb_ge in Et.
+    set (s0 := ae_pre e from t c (start_S e n)).
+    assert (E0 : applied (nd s0) = applied n) by (apply (fr_ae_pre applied); frs).
+    assert (L0 : sr (nd s0) = sr n) by (apply (fr_ae_pre sr); frs).
+    assert (V0 : self_ver (nd s0) = self_ver n) by (apply (fr_ae_pre self_ver); frs).
+    clearbody s0. unfold ae_body_of.
+    pose proof (set_transmission_spec p s0) as Hst. cbv zeta in Hst.
+    pose proof (fr_set_transmission applied) as F1.
+    pose proof (fr_set_transmission self_ver) as F2.
+    specialize (F1 ltac:(frs) p s0). specialize (F2 ltac:(frs) p s0).
+    destruct (set_transmission p s0) as [s2 dn]. cbn [fst snd] in *.
+    destruct (dn && load_dump_ok s2) eqn:Ed.
+    2:{ rewrite (fr_ae_commit applied) by frs. lia. }
+    apply andb_prop in Ed. destruct Ed as [-> Hok].
+    destruct (Hst eq_refl) as (b & Hb1 & Hb2).
+    rewrite (fr_ae_commit applied), nd_send_next_idx by frs.
+    destruct (applied_load_dump e true s2) as [H|(sn & Hs & Hv & H)]; rewrite H; [lia|].
+    rewrite Hb2 in Hs. inversion Hs; subst b.
+    cbn in Hsa. rewrite <- L0 in Hsa. specialize (Hsa Et sn Hb1). lia.
+  - rewrite (fr_msg_apply_cmd applied) by frs. lia.
+  - rewrite (fr_msg_apply_resp applied) by frs. lia.
+  - rewrite (fr_msg_next_idx applied) by frs. lia.
+Qed.
+
+(* C04_applied_monotone_partial: every handler; the two snapshot loads under the stated condition *)
+Theorem applied_monotone_partial c n n' :
+  nstep c (fun m => snap_ahead_msg m n) n n' ->
+  (forall e, cf e = c -> snap_ahead_tick e n) ->
+  applied n <= applied n'.
+Proof.
+  intros H Ht. destruct H.
+  - apply applied_mono_tick. auto.
+  - apply applied_mono_msg. assumption.
+  - rewrite (fr_on_connected applied) by frs. lia.
+  - rewrite (fr_on_disconnected applied) by frs. lia.
+  - unfold api_submit. rewrite (fr_submit applied) by frs. cbn. lia.
+  - unfold api_admin. destruct (dyn (cf e)); [rewrite (fr_submit applied) by frs|]; cbn; lia.
+  - unfold api_setver. destruct (_ || _); [|rewrite (fr_submit applied) by frs]; cbn; lia.
+  - cbn. lia.
+Qed.
+
+(* the unconditional statement needs the global invariants (a node is only ever sent / only ever
+   stores a snapshot of a prefix that extends what it has applied) *)
+Definition C04_applied_monotone_full : Prop :=
+  forall c evs0 evs g g' x n n',
+    run_trace c ginit evs0 = Some g -> run_trace c g evs = Some g' -> runs_through x evs ->
+    aget x (nodes g) = Some n -> aget x (nodes g') = Some n' -> applied n <= applied n'.
+
+(* Log Matching over all reachable global states (staged, DESIGN 5.3) *)
+Definition C04_log_matching_full : Prop :=
+  forall c evs g x y nx ny ex ey,
+    run_trace c ginit evs = Some g ->
+    aget x (nodes g) = Some nx -> aget y (nodes g) = Some ny ->
+    In ex (log nx) -> In ey (log ny) -> eidx ex = eidx ey -> eterm ex = eterm ey ->
+    forall e1, In e1 (log nx) -> eidx e1 <= eidx ex -> first_idx (log ny) <= eidx e1 ->
+    exists e2, In e2 (log ny) /\ eidx e2 = eidx e1 /\ entry_eqb e1 e2 = true.
+
+(* ------------------------------------------------------------------------------------------ *)
+(* C04_match_idx_from_success                                                                 *)
+
+(* D17 repair: a reply that belongs to another term (or reaches a non-leader) is ignored *)
+Theorem next_idx_other_term_ignored e from t nx r su n :
+  t <> term n \/ role n <> LEADER -> on_message e from (NextIdx t nx r su) n = start_S e n.
+Proof.
+  intros H. unfold on_message. cbn [nd start_S].
+  destruct (role n =? LEADER) eqn:Er; cbn [andb]; [|reflexivity].
+  destruct (t =? term n) eqn:Et; [|reflexivity].
+  apply N.eqb_eq in Er, Et. destruct H; contradiction.
+Qed.
+
+Theorem match_idx_from_success e from m n :
+  role n = LEADER ->
+  let n' := nd (on_message e from m n) in
+  match_idx n' = match_idx n \/ role n' <> LEADER \/
+  exists nx r m0, m = NextIdx (term n) nx r true /\ aget from (match_idx n) = Some m0 /\
+                  m0 < nx - 1 /\ match_idx n' = aset from (nx - 1) (match_idx n).
+Proof.
+  intros Hr. cbv zeta.
+  destruct m as [t lli llt|t|t c prev es|t c prev lab off len en|t c p|cm req|req okr a b|t nx r su].
+  - left. apply (fr_msg_request_vote match_idx); frs.
+  - left. unfold on_message. cbn [nd start_S]. rewrite Hr. reflexivity.
+  - unfold on_message. rewrite on_append_entries_eq. cbn [nd start_S].
+    destruct (t <? term n); [now left|]. right. left.
+    rewrite (fr_ae_body_of role) by frs. rewrite role_ae_pre. discriminate.
+  - unfold on_message. rewrite on_append_entries_eq. cbn [nd start_S].
+    destruct (t <? term n); [now left|]. right. left.
+    rewrite (fr_ae_body_of role) by frs. rewrite role_ae_pre. discriminate.
+  - unfold on_message. rewrite on_append_entries_eq. cbn [nd start_S].
+    destruct (t <? term n); [now left|]. right. left.
+    rewrite (fr_ae_body_of role) by frs. rewrite role_ae_pre. discriminate.
+  - left. apply (fr_msg_apply_cmd match_idx); frs.
+  - left. apply (fr_msg_apply_resp match_idx); frs.
+  - unfold on_message. cbn [nd start_S]. rewrite Hr. cbn [N.eqb Pos.eqb andb LEADER].
+    destruct (t =? term n) eqn:Et; [|now left]. apply N.eqb_eq in Et. subst t.
+    destruct su.
+    2:{ left. destruct r; cbn; reflexivity. }
+    set (s1 := if r then _ else _).
+    assert (E1 : match_idx (nd s1) = match_idx n) by (subst s1; destruct r; reflexivity).
+    clearbody s1.
+    destruct (aget from (match_idx (nd s1))) as [m0|] eqn:Em.
+    + destruct (m0 <? nx - 1) eqn:El.
+      * right. right. exists nx, r, m0. apply N.ltb_lt in El. rewrite <- E1.
+        repeat split; auto. destruct (ok _); reflexivity.
+      * left. destruct (ok s1); cbn; exact E1.
+    + left. cbn. exact E1.
+Qed.
+
+(* hence, as long as the node stays leader, every slot only grows on a message *)
+Corollary match_idx_grows_on_message e from m n y a b :
+  role n = LEADER -> role (nd (on_message e from m n)) = LEADER ->
+  aget y (match_idx n) = Some a -> aget y (match_idx (nd (on_message e from m n))) = Some b ->
+  a <= b.
+Proof.
+  intros Hr Hr' Ha Hb.
+  destruct (match_idx_from_success e from m n Hr) as [H|[H|(nx & r & m0 & -> & Hm0 & Hlt & H)]].
+  - rewrite H in Hb. rewrite Ha in Hb. inversion Hb. lia.
+  - contradiction.
+  - rewrite H, aget_aset in Hb. destruct (y =? from) eqn:E.
+    + apply N.eqb_eq in E. subst y. rewrite Ha in Hm0. inversion Hm0; inversion Hb. lia.
+    + rewrite Ha in Hb. inversion Hb. lia.
+Qed.
+
+Lemma nd_fold_fire (subs : list (N * cbref)) t r s :
+  nd (fold_left (fun s tc => if fst tc =? t then fire (snd tc) r SUCCESS s
+                             else fire (snd tc) 0 DISCARDED s) subs s) = nd s.
+Proof.
+  revert s. induction subs as [|tc subs IH]; intros s; cbn [fold_left]; [reflexivity|].
+  rewrite IH. destruct (_ =? _); apply nd_fire.
+Qed.
+
+(* static membership: a tick of a leader does not touch match_idx.  [replay_idx <= applied] says the
+   node is not replaying a journal (a replayed membership command takes effect even when dynamic
+   membership is switched off, syncobj.py:838-842). *)
+Theorem match_idx_tick_static e n :
+  dyn (cf e) = false -> role n = LEADER -> need_load n = false -> replay_idx n <= applied n ->
+  match_idx (nd (on_tick e n)) = match_idx n.
+Proof.
+  intros Hd Hr Hnl Hrp.
+  set (P := fun s : S => match_idx (nd s) = match_idx n /\ replay_idx (nd s) <= applied (nd s)).
+  assert (Hco : forall c cbk s, match_idx (nd (check_one e c cbk s)) = match_idx (nd s)).
+  { intros c cbk s. unfold check_one. rewrite Hd.
+    destruct (role (nd s) =? LEADER).
+    - destruct (use_batch (cf e)); rewrite ?(fr_send_ae match_idx) by frs; destruct cbk; cbn;
+        rewrite ?nd_send; reflexivity.
+    - destruct (leader (nd s)); [destruct cbk|rewrite nd_call_err]; cbn; rewrite ?nd_send; reflexivity. }
+  assert (Hcl : forall f st s, match_idx (nd (check_loop f e st s)) = match_idx (nd s)).
+  { induction f as [|f IH]; intros st s; cbn [check_loop]; [reflexivity|].
+    destruct (_ <? _)%Z; [|reflexivity].
+    assert (K : match_idx (nd (match queue (nd s) with
+              | [] => s
+              | (c, cbk) :: rest =>
+                let s := upd (fun n => n <| queue := rest |>) s in
+                let s := check_one e c cbk s in
+                if ok s then check_loop f e st s else s end)) = match_idx (nd s)).
+    { destruct (queue (nd s)) as [|[c cbk] rest]; [reflexivity|].
+      cbv zeta. destruct (ok _); rewrite ?IH, Hco; reflexivity. }
+    destruct (leader (nd s)); [exact K|]. destruct (wait_leader (cf e)); [reflexivity|exact K]. }
+  assert (Hone : forall en s, P s -> P (fst (apply_one en s))).
+  { intros en s [P1 P2]. unfold apply_one.
+    match goal with |- context [do_apply ?c ?s1] =>
+      assert (D : match_idx (nd (fst (do_apply c s1))) = match_idx n /\
+                  replay_idx (nd (fst (do_apply c s1))) = replay_idx (nd s) /\
+                  applied (nd (fst (do_apply c s1))) = applied (nd s)) end.
+    { unfold do_apply. cbn [nd upd applied replay_idx set].
+      destruct (ck (ecmd en) =? 3); [destruct (_ <? _); cbn; auto|].
+      destruct (membership_of (ecmd en)) as [[a x]|] eqn:Em.
+      - destruct (applied (nd s) <? replay_idx (nd s)) eqn:Erp; [apply N.ltb_lt in Erp; lia|]. cbn. auto.
+      - destruct (ck (ecmd en) =? 0); [destruct (cb (ecmd en) =? 1)|]; cbn; auto. }
+    destruct (do_apply _ _) as [s3 ar]. cbn [fst] in D. destruct D as (D1 & D2 & D3).
+    unfold P.
+    destruct ar; cbn [fst]; try (split; [exact D1|lia]); rewrite nd_upd; cbn [match_idx replay_idx applied set];
+      rewrite nd_fold_fire; (split; [exact D1|lia]). }
+  assert (Hlist : forall es s, P s -> P (apply_list es s)).
+  { induction es as [|en es IH]; intros s Hs; cbn [apply_list]; [exact Hs|].
+    pose proof (Hone en s Hs) as A1. destruct (apply_one en s) as [s4 go]. cbn [fst] in A1.
+    destruct go; [apply IH|]; exact A1. }
+  assert (Hfr : forall (h : S -> S),
+            (forall s, match_idx (nd (h s)) = match_idx (nd s)) ->
+            (forall s, replay_idx (nd (h s)) = replay_idx (nd s)) ->
+            (forall s, applied (nd (h s)) = applied (nd s)) -> forall s, P s -> P (h s)).
+  { intros h H1 H2 H3 s [P1 P2]. unfold P. rewrite H1, H2, H3. split; assumption. }
+  unfold on_tick. rewrite andthen_eq.
+  assert (E1 : tick_load e (start_S e n) = upd (fun n => n <| need_load := false |>) (start_S e n)).
+  { unfold tick_load. cbn [nd start_S]. rewrite Hnl. reflexivity. }
+  rewrite E1. set (s1 := upd _ (start_S e n)).
+  assert (P1 : P s1 /\ role (nd s1) = LEADER) by (subst s1; cbn; repeat split; auto).
+  clearbody s1. destruct P1 as [P1 R1]. clear E1.
+  destruct (ok s1); [|apply P1]. rewrite andthen_eq.
+  assert (P2 : P (tick_timer e s1) /\ role (nd (tick_timer e s1)) = LEADER).
+  { split; [|rewrite (fr_tick_timer role) by frs; exact R1].
+    apply Hfr; auto; intros; [apply (fr_tick_timer match_idx)|apply (fr_tick_timer replay_idx)|
+                              apply (fr_tick_timer applied)]; frs. }
+  destruct P2 as [P2 R2]. generalize dependent (tick_timer e s1). intros s2 P2 R2.
+  destruct (ok s2); [|apply P2]. rewrite andthen_eq.
+  assert (H3 : tick_election e s2 = s2).
+  { unfold tick_election. destruct (self (nd s2)); [|reflexivity]. rewrite R2. reflexivity. }
+  rewrite H3. destruct (ok s2); [|apply P2].
+  enough (G : P ((tick_leader e;;
+       (fun s : S =>
+        let (s0, need) := apply_entries e s in
+        if ok s0 then (tick_send e need;; tick_ready;; check_commands e;; try_compact e) s0 else s0)) s2))
+    by apply G.
+  apply andthen_inv; [| |exact P2].
+  { apply Hfr; intros; [apply (fr_tick_leader match_idx)|apply (fr_tick_leader replay_idx)|
+                        apply (fr_tick_leader applied)]; frs. }
+  intros s3 P3.
+  assert (A : P (fst (apply_entries e s3))).
+  { unfold apply_entries. destruct (_ <? _); cbn [fst]; [apply Hlist|]; exact P3. }
+  destruct (apply_entries e s3) as [s4 need]. cbn [fst] in A.
+  destruct (ok s4); [|exact A].
+  apply andthen_inv; [| |exact A].
+  { apply Hfr; intros; [apply (fr_tick_send match_idx)|apply (fr_tick_send replay_idx)|
+                        apply (fr_tick_send applied)]; frs. }
+  intros s5 P5. apply andthen_inv; [| |exact P5].
+  { apply Hfr; intros; [apply (fr_tick_ready match_idx)|apply (fr_tick_ready replay_idx)|
+                        apply (fr_tick_ready applied)]; frs. }
+  intros s6 P6. apply andthen_inv; [| |exact P6].
+  { apply Hfr; intros; [apply Hcl|apply (fr_check_commands replay_idx)|
+                        apply (fr_check_commands applied)]; frs. }
+  apply Hfr; intros; [apply (fr_try_compact match_idx)|apply (fr_try_compact replay_idx)|
+                      apply (fr_try_compact applied)]; frs.
+Qed.
